@@ -172,6 +172,15 @@ def priority(ctx):
     ctx.check(seen == {"explicit", "context", "default"}, f, "explicit > context > default: all three outcomes present")
 
 
+    # the last fallback of n_jobs is the default of the backend that was CHOSEN for this Parallel (the one stored as
+    # self._backend), not of whatever backend is active in the context
+    init_ = ctx.repo.func(PAR, "Parallel.__init__")
+    sb = [a for a in assigns_to(init_, "self._backend")]
+    chosen = dotted(sb[0].value) if sb else None
+    dn = [a for a in nodes_of_type(init_, ast.Assign) if "n_jobs" in stores_to(a) and isinstance(a.value, ast.Attribute) and a.value.attr == "default_n_jobs"]
+    ctx.check(bool(dn) and chosen is not None and all(dotted(a.value.value) == chosen for a in dn), dn[0] if dn else init_, "the n_jobs fallback is %s.default_n_jobs, the backend stored as self._backend" % chosen,
+              "the n_jobs fallback reads %s.default_n_jobs, but the backend used by this Parallel is `%s`" % ([dotted(a.value.value) for a in dn], chosen))
+
 def _dict_literal_keys(node):
     if isinstance(node, ast.Dict):
         return [const_value(k) for k in node.keys]
